@@ -376,6 +376,92 @@ fn unsplit_pairs(report: &Report, tier: Tier, seed: u64) {
 
 /// Two Wrath client connections used alternately (and a half moved to another thread between the
 /// 4-byte attempt and the fifth byte): per-connection state must live in the connection.
+/// A large Wrath server header is decoded in two steps; between the steps the combined client object may be split,
+/// cloned, or reached through its accessor - the half that completes the header must still hold what the first step
+/// kept (size bytes), and the stream must stay in step afterwards.
+fn wrath_split_between_the_two_steps(report: &Report, seed: u64) {
+    use wow_srp::wrath_header::WrathServerAttempt;
+    let mut cases = 0u64;
+    for ki in 0..3u32 {
+        let key = refmodel::ctr_array::<40>(seed, &format!("c12-mid-{ki}"));
+        for before in 0..4u32 {
+            for variant in 0..5u32 {
+                let mut se = ciphers::wrath_server(&key).split().0;
+                let mut cc = ciphers::wrath_client(&key);
+                // some ordinary headers first (short and long), all through the combined object
+                let mut ok = true;
+                for i in 0..before {
+                    let (size, opcode) = if i % 2 == 0 { (20 + i, 0x100 + i as u16) } else { (0x9000 + i * 0x1234, 0x200 + i as u16) };
+                    let wire = se.encrypt_server_header(size, opcode).to_vec();
+                    let h = match cc.attempt_decrypt_server_header([wire[0], wire[1], wire[2], wire[3]]) {
+                        WrathServerAttempt::Header(h) => h,
+                        WrathServerAttempt::AdditionalByteRequired => cc.decrypt_large_server_header(wire[4]),
+                    };
+                    ok &= (h.size, h.opcode) == (size, opcode);
+                }
+                let (size, opcode) = (0x12_3456 + ki * 0x10_0001 + before * 0x101, 0x3344u16.wrapping_add(variant as u16));
+                let wire = se.encrypt_server_header(size, opcode).to_vec();
+                let first = mc::util::catch(|| matches!(cc.attempt_decrypt_server_header([wire[0], wire[1], wire[2], wire[3]]), WrathServerAttempt::AdditionalByteRequired));
+                if first != Ok(true) || wire.len() != 5 || !ok {
+                    report.violation(Violation { signature: "C12|wrath-client|two-step|setup".into(), scenario: "split-between-steps".into(), replay: json!({"key": hex(&key), "headers_before": before}), detail: json!({"message": format!("a {size:#x}-byte header is not announced as needing a fifth byte, or earlier headers were decoded wrongly ({first:?})")}) });
+                    continue;
+                }
+                let next = se.encrypt_server_header(77, 0x55AA).to_vec();
+                let r = mc::util::catch(move || {
+                    let (h, h2) = match variant {
+                        0 => {
+                            let (_e, mut d) = cc.split();
+                            (d.decrypt_large_server_header(wire[4]), d.decrypt_server_header_or_panic(&next))
+                        }
+                        1 => {
+                            let mut c2 = cc.clone();
+                            drop(cc);
+                            (c2.decrypt_large_server_header(wire[4]), c2.decrypter().decrypt_server_header_or_panic(&next))
+                        }
+                        2 => (cc.decrypter().decrypt_large_server_header(wire[4]), cc.decrypter().decrypt_server_header_or_panic(&next)),
+                        3 => {
+                            let (_e, d) = cc.split();
+                            let mut d2 = d.clone();
+                            drop(d);
+                            (d2.decrypt_large_server_header(wire[4]), d2.decrypt_server_header_or_panic(&next))
+                        }
+                        _ => {
+                            let (_e, d) = cc.split();
+                            let mut d = std::thread::spawn(move || d).join().unwrap();
+                            (d.decrypt_large_server_header(wire[4]), d.decrypt_server_header_or_panic(&next))
+                        }
+                    };
+                    ((h.size, h.opcode), h2)
+                });
+                cases += 1;
+                let what = ["split()", "clone of the combined object", "decrypter() accessor", "split() then clone of the half", "split() then the half moved to another thread"][variant as usize];
+                match r {
+                    Ok((got, got2)) => {
+                        if got != (size, opcode) || got2 != (77, 0x55AA) {
+                            report.violation(Violation { signature: "C12|wrath-client|two-step|state-lost-between-steps".into(), scenario: "split-between-steps".into(), replay: json!({"key": hex(&key), "headers_before": before, "between_the_steps": what, "size": size, "opcode": opcode}), detail: json!({"message": format!("after attempt_decrypt_server_header asked for a fifth byte and then {what}, the header completes as size={:#x} opcode={:#x} (sent {size:#x}/{opcode:#x}), the next header as {:?} (sent 0x4d/0x55aa)", got.0, got.1, got2)}) });
+                        }
+                    }
+                    Err(m) => report.violation(Violation { signature: "C12|wrath-client|two-step|panic".into(), scenario: "split-between-steps".into(), replay: json!({"key": hex(&key), "headers_before": before, "between_the_steps": what}), detail: json!({"message": format!("panicked: {m}")}) }),
+                }
+            }
+        }
+    }
+    report.count("wrath_two_step_split_clone_cases", cases);
+    report.require("wrath_two_step_split_clone_cases");
+}
+
+trait NextHeader {
+    fn decrypt_server_header_or_panic(&mut self, wire: &[u8]) -> (u32, u16);
+}
+impl NextHeader for wow_srp::wrath_header::ClientDecrypterHalf {
+    fn decrypt_server_header_or_panic(&mut self, wire: &[u8]) -> (u32, u16) {
+        match self.attempt_decrypt_server_header([wire[0], wire[1], wire[2], wire[3]]) {
+            wow_srp::wrath_header::WrathServerAttempt::Header(h) => (h.size, h.opcode),
+            wow_srp::wrath_header::WrathServerAttempt::AdditionalByteRequired => (u32::MAX, 0),
+        }
+    }
+}
+
 fn wrath_two_connections(report: &Report, tier: Tier, seed: u64) {
     use wow_srp::wrath_header::{ClientDecrypterHalf, ServerEncrypterHalf, WrathServerAttempt};
     #[derive(Clone, PartialEq, Eq, Hash, Debug)]
@@ -537,6 +623,7 @@ pub fn run(tier: Tier, seed: u64) -> i32 {
     });
     unsplit_pairs(&report, tier, seed);
     wrath_two_connections(&report, tier, seed);
+    wrath_split_between_the_two_steps(&report, seed);
     premise_scan(&report);
 
     // E4: loom schedules (separate binary; its JSON summary is merged here)
